@@ -31,7 +31,7 @@ import fitness_ops
 
 NAN = "7ff8000000000000"
 FIELDS = ["lt", "eq", "gt", "ge", "le", "ne", "dom", "mm", "nanA", "finA", "plus", "minus", "times",
-          "divs", "muls", "abs", "sqrt", "round", "dist", "comb"]
+          "divs", "muls", "abs", "sqrt", "round", "dist", "comb", "small", "nonneg", "ae", "aes"]
 
 
 # ------------------------------------------------------------ doubles as bits
@@ -69,7 +69,10 @@ THREE, FOUR, FIVE, SIX = "4008000000000000", "4010000000000000", "40140000000000
 ROUND_EDGE = ["3f0a36e2eb1c432d",      # 0.00005  (half of the rounding step)
               "3fdfffffffffffff",      # 0.49999999999999994
               "bfdfffffffffffff", "3f2a36e2eb1c432d", "bf1a36e2eb1c432d", "4059000000000001"]
-SCALARS = [P0, N0, PINF, NINF, DMIN, NDMIN, DMAX, NMIN, NNMIN, ONE, NONE_, ONEP, ONEM, TWO, NTWO, FMAX, NFMAX,
+SMALL_EDGE = ["3cc0000000000000", "3cbfffffffffffff", "bcc0000000000000", "3cb0000000000000",   # +-2^-51, below, 2^-52
+              "3ff0000a7c5ac472", "3ff0000a7c5ac473",                                          # 1 + 1e-5, next
+              "3ee4f8b588e368f1"]                                                                # 0.00001
+SCALARS = SMALL_EDGE + [P0, N0, PINF, NINF, DMIN, NDMIN, DMAX, NMIN, NNMIN, ONE, NONE_, ONEP, ONEM, TWO, NTWO, FMAX, NFMAX,
            EPS4, HALF, V25, NV25, THIRD, TENK, BIG53, THREE, FOUR, FIVE] + ROUND_EDGE
 ACCS = [NONE_, N0, P0, HALF, ONE, ONEM, "3fd0000000000000"]
 
@@ -83,6 +86,8 @@ FIXED_POOL = [
     [ONE, TWO, THREE, FOUR], [ONE, TWO, THREE, FIVE], [ONE, TWO, THREE, N0], [N0, N0, N0, N0], [P0, P0, P0, P0],
     [ONE, TWO, THREE, FOUR, FIVE], [ONE, TWO, THREE, FOUR, SIX], [ONE, TWO, THREE, FOUR, NINF],
     [P0, P0, P0, P0, ONE], [N0, P0, N0, P0, ONE],
+    ["3cc0000000000000"], ["3cbfffffffffffff"], ["3ff0000a7c5ac472"], ["3ff0000a7c5ac473"],
+    [ONE, "3cbfffffffffffff"], ["3ff0000a7c5ac472", N0],
 ]
 
 
@@ -116,6 +121,17 @@ def mutate(rng, a):
         b = b[:rng.randrange(len(b))]
     elif r < 0.7 and len(b) < 5:
         b = b + rand_vec(rng, rng.randint(1, 5 - len(b)))
+    elif r < 0.78 and b:
+        # relative nudge around the almost_equal tolerance (1e-5) / absolute around issmall (2^-51)
+        i = rng.randrange(len(b))
+        x = h2d(b[i])
+        if math.isfinite(x):
+            if rng.random() < 0.7:
+                y = x * (1.0 + rng.choice([-1, 1]) * rng.choice([0.99999e-5, 1e-5, 1.00001e-5, 0.5e-5, 2e-5, 1e-9]))
+            else:
+                y = x + rng.choice([-1, 1]) * rng.choice([2.0 ** -51, 2.0 ** -51 * (1 - 2.0 ** -53), 2.0 ** -52, 2.0 ** -50])
+            if y == y:
+                b[i] = d2h(y)
     elif r < 0.85 and b:
         # neighbouring bit pattern
         i = rng.randrange(len(b))
@@ -182,6 +198,19 @@ def f_round_to(x):
     return f_round(f_div(x, 0.0001)) * 0.0001
 
 
+def f_issmall(x):
+    return abs(x) < 2.0 ** -51
+
+
+def f_almost_equal(v1, v2, e=0.00001):
+    diff = abs(v1 - v2)
+    if f_issmall(diff):
+        return True
+    a1, a2 = abs(v1), abs(v2)
+    largest = a2 if a1 < a2 else a1          # std::max
+    return diff <= largest * e
+
+
 def vec_h(xs):
     return show_vec([d2h(x) for x in xs])
 
@@ -239,6 +268,16 @@ def oracle_pair(c, o):
             d = d + abs(x - y)
         chk(o["dist"] == d2h(d), "distance:not-sum-of-abs", "distance(a,b) = %s, sum |a_i-b_i| = %s" % (o["dist"], d2h(d)))
     chk(o["comb"] == show_vec(c["a"] + c["b"]), "combine:not-concatenation", "combine(a,b) = %s" % o["comb"])
+    chk((o["small"] == "1") == all(f_issmall(x) for x in a), "issmall:not-elementwise", "issmall(a) = %s" % o["small"])
+    chk((o["nonneg"] == "1") == all(x >= 0 for x in a), "isnonnegative:not-elementwise",
+        "isnonnegative(a) = %s" % o["nonneg"])
+    if len(a) == len(b):
+        want = all(f_almost_equal(x, y) for x, y in zip(a, b))
+        chk((o["ae"] == "1") == want, "almost_equal:not-elementwise",
+            "almost_equal(a,b) = %s, scalar definition on every component says %s" % (o["ae"], want))
+        want = all(f_almost_equal(x, y, s) for x, y in zip(a, b))
+        chk((o["aes"] == "1") == want, "almost_equal:not-elementwise",
+            "almost_equal(a,b,s) = %s, scalar definition on every component says %s" % (o["aes"], want))
     return bad
 
 
@@ -306,6 +345,52 @@ def oracle_table(pool, T, rng):
     return bad
 
 
+# ---- the witnesses of coq/Props/Refuted_C18.v, replayed on the implementation:
+# (a, b, {field: value the theorem states})
+M_ONE, D5 = "bff0000000000000", "4014000000000000"
+Y1, Z1 = "3ff0000a7c5ac472", "3ff00014f8b588e3"      # 1.00001, 1.00002
+WITNESSES = [
+    ("trichotomy_with_nan", [NAN], [ONE], {"lt": "0", "eq": "0", "gt": "0", "ge": "1", "le": "1"}),
+    ("eq_reflexive_with_nan", [ONE, NAN], [ONE, NAN], {"eq": "0", "ne": "1"}),
+    ("lt_trans_with_nan/ab", [ONE, P0], [NAN, ONE], {"lt": "1"}),
+    ("lt_trans_with_nan/bc", [NAN, ONE], [P0, TWO], {"lt": "1"}),
+    ("lt_trans_with_nan/ac", [ONE, P0], [P0, TWO], {"lt": "0"}),
+    ("max_order_with_nan/1", [NAN], [ONE], {"gt": "0", "eq": "0"}),
+    ("max_order_with_nan/2", [ONE], [NAN], {"gt": "0", "eq": "0"}),
+    ("dom_trans_with_nan/ab", [ONE, ONE], [NAN, P0], {"dom": "1"}),
+    ("dom_trans_with_nan/bc", [NAN, P0], [D5, M_ONE], {"dom": "1"}),
+    ("dom_trans_with_nan/ac", [ONE, ONE], [D5, M_ONE], {"dom": "0"}),
+    ("dom_trans_mixed_lengths/ab", [TWO, P0], [ONE], {"dom": "1"}),
+    ("dom_trans_mixed_lengths/bc", [ONE], [P0, THREE], {"dom": "1"}),
+    ("dom_trans_mixed_lengths/ac", [TWO, P0], [P0, THREE], {"dom": "0"}),
+    ("almost_equal_trans/xy", [ONE], [Y1], {"ae": "1"}),
+    ("almost_equal_trans/yz", [Y1], [Z1], {"ae": "1"}),
+    ("almost_equal_trans/xz", [ONE], [Z1], {"ae": "0"}),
+    ("almost_equal_refl_infinity", [PINF], [PINF], {"ae": "0"}),
+]
+
+
+def replay_witnesses(ck, harness, model):
+    """every witness of Refuted_C18.v on the real operators: full-line correspondence with the model (these are
+    the only cases with NaN inputs) and the value each theorem states"""
+    cases = [{"a": a, "b": b, "s": ONE, "acca": P0, "accb": P0} for _, a, b, _ in WITNESSES]
+    hout, mout, _ = run_cases(harness, model, cases)
+    ok = 0
+    for (name, a, b, want), c, ho, mo in zip(WITNESSES, cases, hout, mout):
+        ck.count()
+        o = parse_out(ho)
+        if o is None:
+            ck.add_violation("fitness:undefined-behaviour", "witness %s aborts" % name, {"cases": [c], "impl": ho})
+            continue
+        if ho != mo:
+            ck.add_diff({"witness": name, "case": case_line(c), "fields": FIELDS}, mo, ho)
+        if all(o[k] == v for k, v in want.items()):
+            ok += 1
+        else:
+            ck.notes.append("witness %s of Refuted_C18.v does not reproduce on the implementation: %s" % (name, ho))
+    ck.coverage["refuted_witnesses_reproduced_on_implementation"] = "%d/%d" % (ok, len(WITNESSES))
+
+
 # --------------------------------------------------------------- running
 def run_cases(harness, model, cases):
     lines = [case_line(c) for c in cases]
@@ -369,6 +454,13 @@ def run(ck):
                         " -- checked-in Gen/FitnessOps.v kept, tie = correspondence only")
     res = vv.prove("Properties_C18", vv.FLOCQ_AXIOMS)
     ck.add_proof(res)
+    ck.add_proof(vv.prove("Refuted_C18", vv.FLOCQ_AXIOMS))
+    if ck.thorough and not ck.replay_path:
+        for pf in ("Properties_C18", "Refuted_C18"):
+            ok_chk, axioms, tail = vv.coqchk(pf)
+            ck.coverage.setdefault("coqchk", {})[pf] = {"ok": ok_chk, "axioms": axioms}
+            if not ok_chk:
+                ck.add_unshown("coqchk", pf, tail)
     ck.trusted += ["translate/fitness_ops.py (how fitness.tcc / model_measurements.h derive each relational operator, "
                    "dominating and model_measurements >=) and coq/Fitness/FitnessSrc.v as the meaning of its output",
                    "coq/Base/F64.v: Flocq 4.1 BinarySingleNaN (prec 53, emax 1024, RNE) as the meaning of double; "
@@ -384,6 +476,9 @@ def run(ck):
     harness = _build(vv.build_harness, "h_fitness")
     model = vv.ocaml_model("Fitness")
     rng = ck.rng
+
+    if not ck.replay_path:
+        replay_witnesses(ck, harness, model)
 
     pool = None
     if ck.replay_path:
